@@ -792,7 +792,7 @@ func truncIndexSearchesField(idx ssa.Value, f, other *types.Var) (bool, string) 
 			if o := calleeObj(c); o != nil && o.Pkg() != nil && o.Pkg().Path() == "sort" && o.Name() == "Search" {
 				search = c
 			}
-			return false
+			return isSmallHelper(c.Call.StaticCallee()) // a search moved into a helper is followed (parameters bound)
 		}
 		return true
 	})
@@ -812,7 +812,19 @@ func truncIndexSearchesField(idx ssa.Value, f, other *types.Var) (bool, string) 
 	}
 	if mc, ok := search.Call.Args[1].(*ssa.MakeClosure); ok {
 		cf := mc.Fn.(*ssa.Function)
-		if len(fieldReads(cf, f)) == 0 || len(fieldReads(cf, other)) > 0 {
+		overF, overOther := len(fieldReads(cf, f)) > 0, len(fieldReads(cf, other)) > 0
+		// the list may reach the predicate as a captured variable (the search lives in a helper that takes the list)
+		for _, bnd := range mc.Bindings {
+			derivesFrom(bnd, func(v ssa.Value) bool {
+				if lf, _ := loadedField(v); lf == f {
+					overF = true
+				} else if lf == other {
+					overOther = true
+				}
+				return false
+			})
+		}
+		if !overF || overOther {
 			return false, "was searched with a predicate over the other list"
 		}
 	}
